@@ -1,55 +1,11 @@
 /-
   Property C14 — the NumPy-like target.
-  * slice re-synthesis round-trips (this file);
+  * slice re-synthesis round-trips (`PtProofs.C14Slice`: `slice_resynth_roundtrip`, …);
   * the generator (`NumpyCodegenMapper`) is sound, refuses what it must, keeps outputs with their
-    keys (`PtProofs.C14PyGen`: `Py.pygen_sound`, `Py.pygen_refuses`, `Py.outputs_aligned`).
+    keys (`PtProofs.C14PyGen`: `Py.pygen_sound`, `Py.pygen_refuses`, `Py.outputs_aligned`);
+  * the printer's parentheses are those Python's grammar needs (`PtProofs.C14Print`:
+    `Py.print_parse_roundtrip`, `Py.print_precedence_sound`).
 -/
-import PtModel.Slice
-import PtProofs.SliceLemmas
+import PtProofs.C14Slice
 import PtProofs.C14PyGen
-namespace Pt
-
-/-- For every normalised slice (any axis length, start, stop, non-zero step) the
-    Python slice the target emits, interpreted by CPython's own adjustment
-    rules, IS that normalised slice. -/
-theorem slice_resynth_roundtrip (s : NSlice) (n : Int) (hn : 0 ≤ n) (h : s.IsNorm n) :
-    cpyAdjust (resynthSlice s n).1 (resynthSlice s n).2.1 (resynthSlice s n).2.2 n = s := by
-  obtain ⟨start, stop, step⟩ := s
-  unfold NSlice.IsNorm at h
-  unfold resynthSlice cpyAdjust cpyAdjustBound
-  simp only at h ⊢
-  rcases h with ⟨hs, h1, h2, h3, h4⟩ | ⟨hs, h1, h2, h3, h4⟩
-  · have hs' : ¬ step < 0 := by omega
-    simp only [hs, if_true]
-    congr 1
-    · split_ifs <;> simp_all <;> omega
-    · split_ifs <;> simp_all <;> omega
-  · have hs' : ¬ step > 0 := by omega
-    simp only [hs', if_false]
-    congr 1
-    · split_ifs <;> simp_all <;> omega
-    · split_ifs <;> simp_all <;> omega
-
-/-- hence it selects exactly the same elements, in the same order -/
-theorem slice_resynth_selects_same (s : NSlice) (n : Int) (hn : 0 ≤ n) (h : s.IsNorm n) (len : Nat) :
-    (cpyAdjust (resynthSlice s n).1 (resynthSlice s n).2.1 (resynthSlice s n).2.2 n).indices len
-      = s.indices len := by
-  rw [slice_resynth_roundtrip s n hn h]
-
-/-- `_normalize_slice` only produces slices in that range -/
-theorem norm_isNorm (st sp : Option Int) (step n : Int) (hn : 0 ≤ n) (hs : step ≠ 0) :
-    (ptNormSlice st sp step n).IsNorm n := by
-  rw [slice_norm_eq_cpython n hn st sp step hs]
-  unfold NSlice.IsNorm cpyAdjust cpyAdjustBound
-  rcases Int.lt_or_gt_of_ne hs with h | h
-  · right
-    cases st <;> cases sp <;> simp only <;> refine ⟨h, ?_, ?_, ?_, ?_⟩ <;> split_ifs <;> omega
-  · left
-    cases st <;> cases sp <;> simp only <;> refine ⟨h, ?_, ?_, ?_, ?_⟩ <;> split_ifs <;> omega
-
-/-! non-vacuity: the slice that used to be mis-synthesised (x[-10::-1] on length 4) -/
-example : (ptNormSlice (some (-10)) none (-1) 4) = ⟨-1, -1, -1⟩ := by decide
-example : resynthSlice ⟨-1, -1, -1⟩ 4 = (some (-5), none, -1) := by decide
-example : (⟨-1, -1, -1⟩ : NSlice).IsNorm 4 := by unfold NSlice.IsNorm; decide
-
-end Pt
+import PtProofs.C14Print
